@@ -91,7 +91,7 @@ def build_runner(race=False):
         h = hc
     gomod = os.path.join(h, "go.mod")
     with open(gomod, "w") as f:
-        f.write("module github.com/bufbuild/connect-go/verifharness\n\ngo 1.18\n\n"
+        f.write("module github.com/bufbuild/connect-go/verifharness\n\ngo 1.21\n\n"
                 "require (\n\tgithub.com/bufbuild/connect-go v0.0.0\n"
                 "\tgoogle.golang.org/protobuf v1.28.0\n)\n\n"
                 "replace github.com/bufbuild/connect-go => %s\n" % REPO)
@@ -228,6 +228,11 @@ def run_runner(ctx, family, scenarios, tag=None, race=False, timeout=3600, args=
         r = subprocess.run(cmd, env=e, capture_output=True, text=True, timeout=timeout)
     except subprocess.TimeoutExpired:
         raise Infra("runner timeout (%s)" % family)
+    if r.returncode < 0:
+        # killed (typically the OOM killer: a broken length prefix can make the library allocate gigabytes per
+        # call): run again with little parallelism so that the outcome can still be judged from the traces
+        log("[run] %s: runner killed (rc=%d), retrying with 2 workers" % (family, r.returncode))
+        r = subprocess.run(cmd + ["-workers", "2"], env=e, capture_output=True, text=True, timeout=timeout * 4)
     if r.returncode != 0:
         raise Infra("runner failed (%s): rc=%d\n%s" % (family, r.returncode, (r.stdout + r.stderr)[-4000:]))
     log("[run] %s: %d scenarios, %.1fs %s" % (family, len(scenarios), time.time() - t, r.stderr.strip()[-300:]))
